@@ -84,6 +84,10 @@ func (g *vGetGate) serve(req *http.Request, k string, cut, extra, flipAt int) (*
 	}
 	long := func() []byte {
 		b := append([]byte(nil), data...)
+		if flipAt%3 == 0 {
+			// over-long AND wrong from the start (the first len(data) bytes are not the block)
+			b[flipAt%L] ^= 1 << uint(flipAt%8)
+		}
 		for i := 0; i < extra; i++ {
 			b = append(b, byte('x'+i%3))
 		}
@@ -180,7 +184,14 @@ func vRunGetScenario(scn vGetScenario) []map[string]interface{} {
 		"n": scn.N, "retries": scn.Retries, "len": L, "ops": scn.Ops})
 
 	step := 0
-	nextKind := func() string {
+	var stepMu sync.Mutex
+	var nextKind func() string
+	nextKindLocked := func() string {
+		stepMu.Lock()
+		defer stepMu.Unlock()
+		return nextKind()
+	}
+	nextKind = func() string {
 		if step < len(scn.Steps) {
 			step++
 			return scn.Steps[step-1]
@@ -248,6 +259,48 @@ func vRunGetScenario(scn vGetScenario) []map[string]interface{} {
 
 	for _, op := range scn.Ops {
 		variant := rng.Intn(1 << 20)
+		if op == "storm" {
+			// 8 concurrent cached readers, each retrying at once after a failure; answers are
+			// released as requests arrive (no gating: which interleaving happens is up to the
+			// Go scheduler, the contract judges whatever is recorded)
+			const R, attempts = 8, 3
+			var wg sync.WaitGroup
+			stop := make(chan struct{})
+			respDone := make(chan struct{})
+			go func() {
+				defer close(respDone)
+				for {
+					select {
+					case rq := <-g.arrivals:
+						k := nextKindLocked()
+						g.log(map[string]interface{}{"ev": "resp", "k": k})
+						rq.release <- k
+					case <-stop:
+						return
+					}
+				}
+			}()
+			for r := 1; r <= R; r++ {
+				wg.Add(1)
+				go func(r int) {
+					defer wg.Done()
+					for a := 0; a < attempts; a++ {
+						p := make([]byte, L)
+						g.log(map[string]interface{}{"ev": "call", "r": r, "api": "readat"})
+						n, err := kc.ReadAt(loc, p, 0)
+						ok := err == nil
+						g.log(map[string]interface{}{"ev": "ret", "r": r, "ok": ok, "match": ok && bytes.Equal(p[:n], data)})
+						if ok {
+							return
+						}
+					}
+				}(r)
+			}
+			wg.Wait()
+			close(stop)
+			<-respDone
+			continue
+		}
 		d1 := make(chan struct{})
 		var d2 chan struct{}
 		g.log(map[string]interface{}{"ev": "call", "r": 1, "api": op})
@@ -285,7 +338,7 @@ func vRunGetScenario(scn vGetScenario) []map[string]interface{} {
 					case <-time.After(5 * time.Second):
 					}
 				}
-			case <-time.After(10 * time.Second):
+			case <-time.After(60 * time.Second):
 				g.log(map[string]interface{}{"ev": "hang"})
 				d1, d2, needSecond = nil, nil, false
 			}
